@@ -1,7 +1,10 @@
 -------------------------- MODULE ApproxMatchTrace --------------------------
 (* Trace validation for C09: families "myers", "ukkonen", "dist".           *)
 (*                                                                         *)
-(* myers    run.cfg = [impl, w, p, ambig, wild, texts]; one matcher object  *)
+(* myers    run.cfg = [impl, w, p, ambig, wild, part, texts]; one matcher   *)
+(*          object (the driver spreads the texts of one object over several *)
+(*          runs "part" = 0,1,.. so that TLC can validate them in parallel; *)
+(*          `new` is the first event of part 0)                             *)
 (*          events  new | find_all_end(ti,k) | distance(ti) | best_end(ti)  *)
 (*          The object has no observable state: every call must answer like *)
 (*          the definition. `st` caches LastRow of every text of the run    *)
@@ -26,8 +29,8 @@ RowsRec(ctx, texts, acc) ==
     ELSE RowsRec(ctx, texts, Append(acc, LastRow(ctx, texts[Len(acc) + 1])))
 
 \* ------------------------------------------------------------------ myers
-MyersAfter(cfg, s, e) ==
-    IF e.c.op = "new" /\ e.r.st = "ok"
+MyersAfter(cfg, s, e) ==            \* first event of the run (unless it is a refused `new`)
+    IF s = NoState /\ ~(e.c.op = "new" /\ e.r.st # "ok")
     THEN RowsRec(MkEq(cfg.p, cfg.ambig, cfg.wild), cfg.texts, << >>)
     ELSE s
 
@@ -57,10 +60,11 @@ UkkExplains(cfg, e) ==
       [] OTHER -> FALSE
 
 \* ------------------------------------------------------------------- dist
-DistAfter(cfg, s) == IF s = NoState THEN << Lev(cfg.a, cfg.b) >> ELSE s
+DistAfter(cfg, s, e) ==               \* Lev(a,b) is computed when first needed
+    IF s = NoState /\ e.c.op \in {"lev", "simd_lev", "bounded"} THEN << Lev(cfg.a, cfg.b) >> ELSE s
 
 DistExplains(cfg, s, e) ==
-    LET c == e.c  r == e.r  d == s[1] IN
+    LET c == e.c  r == e.r  d == s[1] IN       \* d is only used by the three Levenshtein operations
     CASE c.op \in {"hamming", "simd_hamming"} ->
            IF Len(cfg.a) = Len(cfg.b)
            THEN r.st = "ok" /\ r.d = Hamming(cfg.a, cfg.b)
@@ -75,7 +79,7 @@ DistExplains(cfg, s, e) ==
 \* ------------------------------------------------------------------ driver
 After(fam, cfg, s, e) ==
     CASE fam = "myers" -> MyersAfter(cfg, s, e)
-      [] fam = "dist"  -> DistAfter(cfg, s)
+      [] fam = "dist"  -> DistAfter(cfg, s, e)
       [] OTHER         -> s
 
 Explains(fam, cfg, s, e) ==
